@@ -525,3 +525,124 @@ Example ex_fine_sections :
   | _ => False
   end.
 Proof. vm_compute. repeat split; reflexivity. Qed.
+
+(* ==== Extension (session 3): sections_wf proved of the model's images; the composed packer pack_all at system call
+   granularity ====
+   Until here "sections_wf (the run-time structural check of real images) is not proved of the model's images (the xattr
+   section is an abstract input)".  ImgXattr.FlushModel.xflush is the byte-level model of sqfs_xattr_writer_flush and
+   ImgE2E.PackAll.pack_all the composed packer whose xattr section IS what xflush appends where the id table ends. *)
+From SqfsV Require Import C14.SectionWf C14.PackFine.
+From SqfsV Require Import C01.XattrModel ImgXattr.FlushModel ImgXattr.KvRefine ImgXattr.FlushShape.
+From SqfsV Require Import ImgE2E.PackAll ImgE2E.Hyps.
+From SqfsV Require ImgE2E.Example C03.MetaProofs.
+
+(* sections_wf_on_written_images: for EVERY image of write_image whose xattr section is what the flush model appends at
+   o_xattr (hypotheses otherwise as for coarse_of_image_recovers_trace) the executable well-formedness of the sections
+   recomputed from the BYTES holds: the options are nothing or one uncompressed metadata block; inode table and
+   directory table are sequences of whole metadata blocks (header + as many bytes as the header says); each lookup table
+   is absent and empty, or blocks followed by a location list naming exactly the block starts, the super block's start
+   field pointing between the two; the xattr section is absent and empty, or whole metadata blocks up to the header,
+   which lies inside the section with room for at least one location behind it *)
+Theorem sections_wf_on_written_images : forall compress uncompress,
+  (forall b c, compress b = CData c -> lenN c <= lenN b /\ uncompress c = Some b) ->
+  forall limit, limit <= 65535 ->
+  forall cfg inp w,
+  write_image compress limit cfg inp = Res.Ok w -> image_domain cfg inp = true -> image_fits w = true ->
+  forall xw, xflush compress (o_xattr w) xw = Res.Ok (in_xattr inp) ->
+  sections_wf (image_bytes w) = true.
+Proof. exact sections_wf_written. Qed.
+Print Assumptions sections_wf_on_written_images.
+
+(* sections_wf_on_packed_images: for every successful run of the composed packer (hypotheses of pack_all_reads_back: the
+   two compressor contracts, the id table limit, e2e_okb) the sections of the image are well-formed and coarse_of_image
+   recovers the section trace of the run from the bytes alone *)
+Theorem sections_wf_on_packed_images :
+  forall (hashf : list N -> N)
+         (dcompress : list N -> option (list N)) (duncompress : list N -> nat -> option (list N)),
+  (forall b c, dcompress b = Some c ->
+     (length c < length b)%nat /\ forall n, (length b <= n)%nat -> duncompress c n = Some b) ->
+  forall half (mcompress : list N -> cres) (muncompress : list N -> option (list N)),
+  (forall b c, mcompress b = CData c -> lenN c <= lenN b /\ muncompress c = Some b) ->
+  forall limit, limit <= 65535 ->
+  forall cfg pi r,
+  pack_all hashf dcompress duncompress half mcompress limit cfg pi = PDone r ->
+  e2e_okb half cfg pi r = true ->
+  sections_wf (image_bytes (r_w r)) = true /\
+  coarse_of_image (PWrite 0 (encode (w_super0 (r_w r)))) (image_bytes (r_w r)) = Some (w_trace (r_w r)).
+Proof. exact sections_wf_on_packed_images_l. Qed.
+Print Assumptions sections_wf_on_packed_images.
+
+(* xattr_section_calls_are_the_flush's: the calls the fine model predicts for the xattr section (xattr_chunks: cut at the
+   metadata block headers, then 16 bytes, then the rest) ARE the calls of sqfs_xattr_writer_flush as FlushModel describes
+   it: one write per key-value block, one per id block, the header { kv_start, count, 0 }, the location list
+   (the analogue of table_chunks_faithful for sqfs_write_table) *)
+Theorem xattr_section_calls_are_the_flushs : forall compress uncompress,
+  (forall b c, compress b = CData c -> lenN c <= lenN b /\ uncompress c = Some b) ->
+  forall limit, limit <= 65535 ->
+  forall cfg inp w,
+  write_image compress limit cfg inp = Res.Ok w -> image_domain cfg inp = true ->
+  forall xw, xflush compress (o_xattr w) xw = Res.Ok (in_xattr inp) ->
+  (w_xattrb w = [] /\ ev_chunks (o_xattr w) (xattr_chunks (o_xattr w) (w_xattrb w) (s_xattr_start (w_super w))) = []) \/
+  (exists off kvr idr descs,
+     xshape compress (o_xattr w) xw (w_xattrb w) off kvr idr descs /\
+     xattr_chunks (o_xattr w) (w_xattrb w) (s_xattr_start (w_super w)) =
+     map (MetaProofs.enc compress) kvr ++ map (MetaProofs.enc compress) idr ++
+     [xattr_header (o_xattr w) (Res.nlen (x_blocks xw));
+      concat (map le64 (map (fun k => o_xattr w + lenN (concat (map (MetaProofs.enc compress) kvr)) + startN compress idr k)
+                            (seq 0 (length idr))))]).
+Proof. exact xattr_chunks_faithful. Qed.
+Print Assumptions xattr_section_calls_are_the_flushs.
+
+(* pack_all_kill_safe: C14 for the composed packer.  A successful run IS a run of the fine writer model on the input
+   the packer built (pack_all_is_fine_write); its call sequence pack_trace refines the section trace, has the promised
+   shape, writes exactly the image, with the xattr section's calls being the flush's own (above) - and at EVERY kill
+   point (k = number of output system calls that completed) the file left behind is refused by every reader or is the
+   complete image *)
+Theorem pack_all_is_fine_write :
+  forall hashf dcompress duncompress half mcompress limit cfg pi r,
+  pack_all hashf dcompress duncompress half mcompress limit cfg pi = PDone r ->
+  fine_write hashf dcompress duncompress false true half mcompress limit cfg (pack_fin pi r)
+  = FOk (r_inp r) (r_w r) (pack_trace pi r).
+Proof. exact pack_is_fine_write. Qed.
+
+Theorem pack_all_kill_safe :
+  forall (hashf : list N -> N)
+         (dcompress : list N -> option (list N)) (duncompress : list N -> nat -> option (list N)),
+  (forall b c, dcompress b = Some c ->
+     (length c < length b)%nat /\ forall n, (length b <= n)%nat -> duncompress c n = Some b) ->
+  forall half (mcompress : list N -> cres) (muncompress : list N -> option (list N)),
+  (forall b c, mcompress b = CData c -> lenN c <= lenN b /\ muncompress c = Some b) ->
+  forall limit, limit <= 65535 ->
+  forall cfg pi r,
+  pack_all hashf dcompress duncompress half mcompress limit cfg pi = PDone r ->
+  e2e_okb half cfg pi r = true ->
+  xattr_calls_of_flush mcompress r /\
+  trace_refines (pack_trace pi r) (w_trace (r_w r)) /\ trace_ok (pack_trace pi r) /\
+  apply (pack_trace pi r) = image_bytes (r_w r) /\
+  forall k, accepts (apply (firstn k (pack_trace pi r))) = false \/
+            image_of (apply (firstn k (pack_trace pi r))) = image_of (image_bytes (r_w r)).
+Proof. exact pack_all_kill_safe_l. Qed.
+Print Assumptions pack_all_kill_safe.
+
+(* ---- non-vacuity: the run of ImgE2E/Example.v (five paths, a duplicate file whose block is written and cut off again,
+   a fragment, three xattr sets; every hypothesis holds: ex_e2e_hyps / ex_e2e_contracts of Properties_C01 section 7) ---- *)
+(* every decidable hypothesis holds (e2e_okb); 19 output calls; the xattr section at 363 is written as key-value block (62 bytes), id block (28), header (16),
+   location list (8); the sections are well-formed; refused at the 18 kill points up to the commit (call 17), accepted at
+   the last two *)
+Example ex_pack_run :
+  match ImgE2E.Example.ex_run with
+  | PDone r =>
+      let tr := pack_trace ImgE2E.Example.ex_pi r in
+      e2e_okb ImgE2E.Example.ex_half ImgE2E.Example.ex_cfg ImgE2E.Example.ex_pi r = true /\
+      sections_wf (image_bytes (r_w r)) = true /\
+      map (fun e => match e with PWrite o d => (0, o, lenN d) | Truncate n => (1, n, 0) end) tr =
+      [(0, 0, 96); (0, 96, 4); (0, 100, 4); (1, 100, 0); (0, 100, 5); (0, 105, 139); (0, 244, 53);
+       (0, 297, 11); (0, 308, 8); (0, 316, 16); (0, 332, 8); (0, 340, 15); (0, 355, 8);
+       (0, 363, 62); (0, 425, 28); (0, 453, 16); (0, 469, 8); (0, 0, 96); (0, 477, 3619)] /\
+      map (fun c => lenN c) (xattr_chunks (o_xattr (r_w r)) (w_xattrb (r_w r)) (s_xattr_start (w_super (r_w r))))
+      = [62; 28; 16; 8] /\
+      commit_index tr = 17%nat /\
+      map (fun k => accepts (apply (firstn k tr))) (seq 0 20) = repeat false 18 ++ [true; true]
+  | _ => False
+  end.
+Proof. vm_compute. repeat split; reflexivity. Qed.
